@@ -1128,6 +1128,16 @@ def symbol_mismatch(info, sym):
         return "the wrapper calls %s, the declaration names %s" % (dem, info.cxx_name)
     if info.is_method and info.cls is not None and not qname.startswith(info.cls.typemap.name + "::"):
         return "the wrapper calls %s, not a member of %s" % (dem, info.cls.typemap.name)
+    if not info.is_method:
+        # a free function: the namespaces it is declared in (walked up the declaration tree, not read from a format field)
+        scope, n_ = [], getattr(info.orig, "parent", None)
+        while n_ is not None:
+            if type(n_).__name__ == "NamespaceNode" and getattr(n_, "name", None):
+                scope.insert(0, n_.name)
+            n_ = getattr(n_, "parent", None)
+        want_q = "::".join(scope + [info.cxx_name])
+        if scope and qname != want_q:
+            return "the wrapper calls %s, the declaration is %s" % (dem, want_q)
     params = [] if ptext in ("", "void") else split_params(ptext)
     full = getattr(info, "full_params", info.params)
     if len(params) != len(full):
